@@ -21,7 +21,11 @@ META = {
                    "return, closures, calls of closures / named functions / println, print, string_repr / enum constructors, match) "
                    "EXCEPT break/continue in a non-statement position (inside an operand, condition, argument, list item, scrutinee: "
                    "there the interpreter leaks partial results on the value stack, a genuine defect that is reported and not fixed) "
-                   "and 64-bit integer literals only; programs must carry the parser's value_is_used annotation (well_annotated, with "
+                   "(the side condition is exactly: break/continue only as a statement of a block, not inside an operand; it is NECESSARY: "
+                   "Example break_in_operand_position_refuted shows on the model that `[while True { [if True { break } else { 2 }, 1] }, 5]` "
+                   "gives [Unit, 1] on the machine and [Unit, 5] in Ref.v, matching the known finding C05:break-continue-in-operand-position) "
+                   "and 64-bit integer literals only; match, return (also in operand position), for, closures are all IN the fragment "
+                   "(Example fragment_covers_match_return_for_break); programs must carry the parser's value_is_used annotation (well_annotated, with "
                    "the fixed rule for parentheses) and a well-formed initial environment (prog_good). Divergence (Ref.v OutOfFuel) and "
                    "constructs outside the model (Unsupp) are not related. Everything outside the fragment, and the tie between "
                    "Machine.v / Ref.v and the Rust code, is differential testing against the extracted Ref.v (this driver, and C06)."),
@@ -92,6 +96,11 @@ def run(ctx):
     sx2 = oracle.batch(exe, [{"op": "sexp", "src": s, "positions": True} for s in operand], timeout=300)
     rc3, ref2, err3 = common.run_lines(mdl, [], ["ref\t60000\t" + common.hexs("\n".join(x.get("items") or [])) for x in sx2], timeout=300)
     ref = ref + ref2
+    for s in progs:
+        for kw, nm in (("match ", "match"), ("for ", "for"), ("while ", "while"), ("break", "break"), ("continue", "continue"),
+                       ("return", "return"), ("fun(", "closure literal")):
+            if kw in s:
+                ctx.stat("generated programs with " + nm)
     for s, i, r in zip(progs, impl, ref):
         ic, iout = impl_class(i)
         f = r.split("\t")
